@@ -1428,6 +1428,58 @@ Proof.
   injection Ea as <-. injection Eb as <-. rewrite cov_m_old, cov_m. reflexivity.
 Qed.
 
+(* ---------------------------------------------------------------- UInt64 inputs (a40c65193) *)
+Lemma u64_abs_sum xs : Forall is_u64 xs -> (abs_sum xs = zsum xs /\ 0 <= zsum xs <= zlen xs * (2 ^ 64 - 1))%Z.
+Proof.
+  unfold abs_sum, zsum, zlen. induction 1 as [|x xs Hx _ IH]; cbn [map fold_right length].
+  - cbn. lia.
+  - unfold is_u64 in Hx. rewrite Nat2Z.inj_succ. destruct IH as [E B]. rewrite E. lia.
+Qed.
+
+Lemma u64_rows_bound xs : Forall is_u64 xs -> (zlen xs <= 2 ^ 63)%Z -> (abs_sum xs < 2 ^ 127)%Z.
+Proof.
+  intros H L. destruct (u64_abs_sum xs H) as [E B]. rewrite E.
+  assert ((2 ^ 63 * (2 ^ 64 - 1) < 2 ^ 127)%Z) by (vm_compute; reflexivity).
+  pose proof (zlen_nonneg xs). nia.
+Qed.
+
+(* SUM(UInt64): with at most 2^63 rows every plan succeeds, equals the sequential run and is exact *)
+Lemma sum_u64_exact : forall t xs,
+  Permutation (nn (flatten t)) (nn xs) -> Forall is_u64 (nn xs) -> (zlen (nn xs) <= 2 ^ 63)%Z ->
+  run_tree sum_u64 t = run_chunk sum_u64 xs /\ result_tree sum_u64 t = Ok (spec_sum (nn xs)).
+Proof.
+  intros t xs P H L. apply (sum_total_when_bounded 128 t xs P).
+  change (128 - 1)%Z with 127%Z. apply u64_rows_bound; assumption.
+Qed.
+
+Lemma sum_u64_never_wrong : never_wrong sum_u64 spec_sum eq /\ state_determined sum_u64.
+Proof. exact (sum_never_wrong 128). Qed.
+
+(* AVG(UInt64): the state of every plan over at most 2^63 u64 rows has its sum inside i128 (every
+   intermediate state of a plan is the state of a sub-plan over a sub-bag of the rows) *)
+Lemma avg_u64_accumulator_in_range : forall t s c,
+  Forall is_u64 (nn (flatten t)) -> (zlen (nn (flatten t)) <= 2 ^ 63)%Z ->
+  run_tree avg_u64 t = Ok (s, c) -> in_i 128 s = true /\ c = zlen (nn (flatten t)).
+Proof.
+  intros t s c H L E. unfold avg_u64 in E.
+  assert (A : run_tree avg_i t = Ok (al_avgz (nn (flatten t)))).
+  { apply (tree_alpha avg_i al_avgz eq_refl).
+    - intros xs x. cbn [a_update avg_i al_avgz]. unfold al_avgz. rewrite zsum_snoc, zlen_app. reflexivity.
+    - intros xs ys. cbn [a_merge avg_i al_avgz]. unfold al_avgz. rewrite zsum_app, zlen_app. reflexivity. }
+  rewrite A in E. injection E as <- <-. split; [|reflexivity].
+  apply in_i_bounded. change (128 - 1)%Z with 127%Z.
+  pose proof (zsum_le_abs (nn (flatten t))). pose proof (u64_rows_bound _ H L). lia.
+Qed.
+
+Lemma avg_u64_all :
+  fold_correct avg_u64 spec_avg_i fres_eq /\ split_invariant avg_u64 /\ merge_homomorphism avg_u64 /\
+  empty_neutral avg_u64 /\ total avg_u64.
+Proof. exact avgi_all. Qed.
+
+Example u64_hypotheses_satisfiable :
+  Forall is_u64 [(2 ^ 64 - 1)%Z; (2 ^ 63)%Z; 0%Z] /\ (zlen [(2 ^ 64 - 1)%Z; (2 ^ 63)%Z; 0%Z] <= 2 ^ 63)%Z.
+Proof. split; [repeat constructor; unfold is_u64; lia|vm_compute; discriminate]. Qed.
+
 (* ---------------------------------------------------------------- consequences *)
 (* any two plans over the same bag of rows end in the same state *)
 Lemma two_plans_agree {X S O} (f : agg X S O) : split_invariant f ->
